@@ -55,6 +55,12 @@ func hasRefs(t types.Type) bool {
 		}
 	case *types.Array:
 		return hasRefs(x.Elem())
+	case *types.Tuple:
+		for i := 0; i < x.Len(); i++ {
+			if hasRefs(x.At(i).Type()) {
+				return true
+			}
+		}
 	}
 	return false
 }
